@@ -33,6 +33,10 @@ def gen_case(rng, idx, tier):
     return poolcase.gen_pool_case(rng, faults=(idx % 4 == 0))
 
 
+def on_timeout(case, frames, timeout_s):
+    return poolcase.on_timeout(case, frames, timeout_s)
+
+
 def run_case(case):
     res = Result()
     d = tempfile.mkdtemp(prefix="gwfv-pool-")
